@@ -754,6 +754,13 @@ class Directed(Scenario):
         r = self.r
         nagle = r.choice([0, 1, 1])
         self.start(True, f"nagle={nagle} " + r.choice(["", "mtu=576", "tx0=2000 txmax=8000"]), rwnd=r.choice([0, 300, 600, 1500, 3000, 1 << 20]))
+        if nagle == 0 and r.random() < 0.5:
+            # a small first write still unacknowledged, then a write between the proven size and the probe size
+            self.do(f"vs write {r.choice([1, 50, 100])}")
+            self.do("vs poll")
+            self.do(f"vs write {r.choice([529, 600, 700, 900])}")
+            self.do("vs poll")
+            self.do("vs poll")
         for _ in range(r.randrange(8, 50)):
             if self.dead:
                 break
